@@ -40,7 +40,7 @@ Ltac fm_run := unfold fexec, fcall, fbody; cbn -[Nat.ltb Nat.leb Nat.eqb nth_err
 
 Theorem fexec_expected m o : fexec fm_expected m o = Some (fm_step m o).
 Proof.
-  destruct o as [k|k|k v|i| | |k|k| |k|i].
+  destruct o as [k|k|k v|i| | |k|k| |k|i| ].
   - (* at *)
     fm_run. rewrite lookup_nth.
     set (i := find_pos _ m). pose proof (find_pos_le (fun kv : N * N => N.eqb (fst kv) k) m) as Hle. fold i in Hle.
@@ -104,6 +104,7 @@ Proof.
     + destruct (nth_error m (N.to_nat i)) as [[a b]|] eqn:En; [reflexivity|]. apply nth_error_None in En. lia.
     + destruct (nth_error m (N.to_nat i)) as [[a b]|] eqn:En; [|reflexivity].
       assert (nth_error m (N.to_nat i) <> None) as Hn by congruence. apply nth_error_Some in Hn. lia.
+  - reflexivity.
 Qed.
 
 (* begin()..end(), the const and c-variants enumerate the vector in order; rbegin()..rend() backwards *)
